@@ -207,7 +207,8 @@ func corrCfg(o corrOpts) *res.Summary {
 	boolVals := []string{"true", "false", "1", "0", "t", "f", "T", "F", "TRUE", "FALSE", "True", "False"}
 	envBoolVals := append([]string{"yes", "no", "on", "off", "YES", "On", " true ", "\ttrue\n", " yes", "tRuE", "2", "truee", "y", "enable", " on ", " true", "0 ", "ｔｒｕｅ"}, boolVals...)
 	listVals := []string{"a", "a,b", " a , b ", "a,,b", ",", ",,", " ", "a, ,b,", "imm01", "Imm01,ctor", "ALL", " all ", "x ", " y ,z", "testdata", "zzcustom,testdata",
-		"a\tb", "a b,c d", "中,文", "IMM,imm,Imm", "a,b,c,d,e,f,g,h", "-", "a=b", "\"q\"", "a;b", "tonl01 , pkgo"}
+		"a\tb", "a b,c d", "中,文", "IMM,imm,Imm", "a,b,c,d,e,f,g,h", "-", "a=b", "\"q\"", "a;b", "tonl01 , pkgo",
+		"gen/", "./gen", "a//b", "../x, y/", "/", ".", "api_gen/,vendor/", "a/./b", "/abs/path/", "mock,mocks", "gen,generated,gen"}
 	var cases []cfgCase
 	if o.replay != "" {
 		c, err := cfgParse(o.replay)
